@@ -31,9 +31,15 @@ Definition as_bool (j : json) : option bool := match j with JBool b => Some b | 
 Definition as_u64 (j : json) : option N := match j with JNum l => u64_of_lit l | _ => None end.
 
 (* a struct given as a map, or as a sequence of all its fields in declaration order *)
+(* serde's derived visit_map: a known field that appears twice is an error ("duplicate field");
+   unknown fields are skipped, however often they appear *)
+Fixpoint count_key (k : str) (fs : list (str * json)) : nat :=
+  match fs with [] => 0 | (k', _) :: fs' => (if str_eqb k k' then 1 else 0) + count_key k fs' end.
+Definition no_dup_known (names : list str) (fs : list (str * json)) : bool :=
+  forallb (fun n => Nat.leb (count_key n fs) 1) names.
 Definition as_fields (names : list str) (j : json) : option (list (str * json)) :=
   match j with
-  | JObj fs => Some fs
+  | JObj fs => if no_dup_known names fs then Some fs else None
   | JArr items => if Nat.eqb (length items) (length names) then Some (combine names items) else None
   | _ => None
   end.
